@@ -20,14 +20,24 @@ Verdict(e) ==
   ELSE LET pkts == PacketsFrom(e.stream, S!First(e.stream))
            pat == AbsPat(e.pat)  pmt == AbsPmt(e.pmt)
            k == PatIndex(pkts) IN
-  IF k = 0 \/ ~PatPayloadOK(pkts[k], PatSection(pat)) THEN "harness-bad-pat-packet"
+  IF e.variant = "nopat" THEN (IF k # 0 THEN "harness-variant-nopat"
+                               ELSE IF e.pat_err # "notfound" THEN "demux-missing-pat-not-reported-as-not-found" ELSE "")
+  ELSE IF k = 0 \/ ~PatPayloadOK(pkts[k], PatSection(pat)) THEN "harness-bad-pat-packet"
   ELSE IF e.pat_err # "nil" THEN "demux-pat-not-read"
   ELSE IF e.nump # NumPrograms(pat) \/ ~e.spts_ok \/ e.spts # SptsPid(pat) THEN "demux-pat-values"
-  ELSE LET unit == FirstUnit(AfterWithPusi(pkts, k, SptsPid(pat))) IN
-  IF unit = <<>> \/ ~IsCarriage(unit, PmtPayload(0, <<>>, pmt, 0)) THEN "harness-bad-pmt-carriage"
+  ELSE LET sel  == AfterWithPusi(pkts, k, SptsPid(pat))
+           unit == FirstUnit(sel)
+           mine == SelectSeq([i \in 1..(Len(pkts) - k) |-> pkts[k + i]], LAMBDA p : Get("pid", p) = SptsPid(pat))
+           contFirst == mine # <<>> /\ Get("pusi", mine[1]) = 0 IN
+  IF e.variant \in {"nopmt", "cutpmt"} THEN
+       \* no unit of the PMT PID completes before the stream ends: the reader must say "not found"
+       (IF ~(sel = <<>> \/ (unit = sel /\ ~Done(Flatten([i \in 1..Len(sel) |-> PktPayload(sel[i])])))) THEN "harness-variant-nopmt"
+        ELSE IF e.pmt_err = "notfound" THEN ""
+        ELSE IF contFirst THEN "demux-pmt-not-read-when-first-pmt-packet-is-a-continuation"
+        ELSE "demux-missing-pmt-not-reported-as-not-found")
+  ELSE IF unit = <<>> \/ ~IsCarriage(unit, PmtPayload(0, <<>>, pmt, 0)) THEN "harness-bad-pmt-carriage"
   ELSE IF e.pmt_err # "nil" THEN
-       (LET mine == SelectSeq([i \in 1..(Len(pkts) - k) |-> pkts[k + i]], LAMBDA p : Get("pid", p) = SptsPid(pat)) IN
-        IF mine # <<>> /\ Get("pusi", mine[1]) = 0 THEN "demux-pmt-not-read-when-first-pmt-packet-is-a-continuation"
+       (IF contFirst THEN "demux-pmt-not-read-when-first-pmt-packet-is-a-continuation"
         ELSE "demux-pmt-not-read")
   ELSE IF ObsStreams(e.streams) # StreamView(pmt) \/ e.pids # PidList(pmt) THEN "demux-pmt-values"
   ELSE LET sp == SctePkts(pkts, e.scte_pid) IN
